@@ -163,6 +163,53 @@ Theorem C16_model_ok :
 Proof. exact bolfi_model_ok. Qed.
 Print Assumptions C16_model_ok.
 
+(** Histories on one object.  [weights] and the entries of [samples] are public attributes which
+    callers - and the library itself: SMC builds each population unweighted and then assigns
+    [sample.weights = w] - set after construction.  For EVERY sequence of such assignments the
+    object's array, means and quantiles (every level) are those of a freshly constructed Sample
+    holding the current samples and the current weights: the model has no state besides them. *)
+Theorem C16_history_fresh :
+  forall (names : list string) (outputs : dict) (w0 : option (list Qc)) (o : sobj) (ops : list op),
+    NoDup names -> construct names outputs w0 = Some o -> Forall (op_wf names) ops ->
+    let o' := run o ops in
+    exists f, construct names (so_samples o') (so_weights o') = Some f
+              /\ so_samples f = so_samples o' /\ so_weights f = so_weights o'
+              /\ so_array f = so_array o' /\ so_means f = so_means o'
+              /\ forall alpha, so_quantiles f alpha = so_quantiles o' alpha.
+Proof. exact history_fresh. Qed.
+Print Assumptions C16_history_fresh.
+
+Theorem C16_history_last_weights :
+  forall (o : sobj) (ops : list op) (w : option (list Q)),
+    so_weights (run o (ops ++ [OSetW w])) = option_map (map Q2Qc) w
+    /\ so_samples (run o (ops ++ [OSetW w])) = so_samples (run o ops).
+Proof. exact history_last_weights. Qed.
+Print Assumptions C16_history_last_weights.
+
+(** on a fresh object the state-based summaries are the constructor-based ones above *)
+Theorem C16_construct_summaries :
+  forall names outputs w o,
+    construct names outputs w = Some o ->
+    so_array o = samples_array names outputs /\ so_means o = sample_means names outputs w
+    /\ (forall alpha, so_quantiles o alpha = model_quantiles names outputs w alpha)
+    /\ so_n o = n_samples names outputs.
+Proof. exact construct_summaries. Qed.
+Print Assumptions C16_construct_summaries.
+
+(** and the means are the definition: entry j is (key j, sum w_i x_i / sum w_i) over the j-th stored
+    column with the current weights (unit weights when there are none) *)
+Theorem C16_means_definition :
+  forall (s : dict) (w : option (list Qc)) (ms : list (string * Qc)),
+    means_of s w = Some ms ->
+    length ms = length s
+    /\ forall j k v, nth_error ms j = Some (k, v) ->
+         exists col, nth_error s j = Some (k, col)
+                     /\ let w' := match w with None => repeat 1 (length col) | Some w => w end in
+                        length w' = length col /\ v = wsum w' col / sumq w'
+                        /\ (w <> None -> sumq w' <> 0).
+Proof. exact means_of_spec. Qed.
+Print Assumptions C16_means_definition.
+
 (** Non-vacuity. *)
 Definition q (z : Z) : Qc := Q2Qc (inject_Z z).
 Definition ex_chains : list (list (list Qc)) :=
@@ -188,3 +235,26 @@ Example C16_ex_diag :
   /\ this (ess ex_diag) = this (ess (map (map (fun x => q (-3) * x + q 7)) (rev ex_diag)))
   /\ negb (Qeq_bool (this (ess ex_diag)) 12) = true.
 Proof. split; [repeat constructor|]. vm_compute. repeat split; reflexivity. Qed.
+
+(** a history: built without weights, weights assigned afterwards (what SMC does), then replaced,
+    then a column replaced: every summary follows the current state *)
+Definition ex_obj : option sobj :=
+  construct ["b"; "a"]%string [("a"%string, [q 1; q 2; q 6]); ("d"%string, [q 7; q 8; q 9]); ("b"%string, [q 3; q 4; q 8])] None.
+
+Example C16_ex_history :
+  match ex_obj with
+  | None => False
+  | Some o =>
+      let o1 := run o [OSetW (Some [1; 1; 2]%Q)] in
+      let o2 := run o1 [OSetW (Some [4; 0; 0]%Q)] in
+      let o3 := run o2 [OSetCol "a"%string [5; 5; 5]%Q; OSetW None] in
+      Forall (op_wf ["b"; "a"]%string) [OSetW (Some [1; 1; 2]%Q); OSetW (Some [4; 0; 0]%Q); OSetCol "a"%string [5; 5; 5]%Q; OSetW None]
+      /\ option_map (map (fun kv => (fst kv, this (snd kv)))) (so_means o) = Some [("b"%string, 5); ("a"%string, 3)]%Q
+      /\ option_map (map (fun kv => (fst kv, this (snd kv)))) (so_means o1) = Some [("b"%string, 23 # 4); ("a"%string, 15 # 4)]%Q
+      /\ option_map (map (fun kv => (fst kv, this (snd kv)))) (so_means o2) = Some [("b"%string, 3); ("a"%string, 1)]%Q
+      /\ option_map (map (fun kv => (fst kv, this (snd kv)))) (so_means o3) = Some [("b"%string, 5); ("a"%string, 5)]%Q
+      /\ option_map (map (fun kv => (fst kv, this (snd kv)))) (so_quantiles o (q 1)) = Some [("b"%string, 8); ("a"%string, 6)]%Q
+      /\ option_map (map (fun kv => (fst kv, this (snd kv)))) (so_quantiles o2 (q 1)) = Some [("b"%string, 3); ("a"%string, 1)]%Q
+      /\ option_map (map (fun kv => (fst kv, this (snd kv)))) (so_quantiles o1 (Q2Qc (1 # 2))) = Some [("b"%string, 4); ("a"%string, 2)]%Q
+  end.
+Proof. vm_compute. repeat split; try reflexivity. repeat (apply Forall_cons; [simpl; auto|]). apply Forall_nil. Qed.
